@@ -153,15 +153,16 @@ theorem C14_no_deadlock (progs : List (TxProg S O)) (st0 : S) (hpure : ∀ p ∈
 /-- **The hypotheses, for the code as it is now** (regenerated effect and lock facts): the transaction lock
 is `db.mu`, taken in `Begin` on the side `writable` selects and released only by `Commit`/`Rollback`; no
 `Tx` method other than these two touches a mutex; and no `Tx` method other than Commit/Rollback writes a
-shared location — except the listed ones, each a recorded finding (D-SORTFID: sparse-mode reads sort
-`db.BPTreeRootIdxes` in place; D-SMOVE) or a documented imprecision (`ZRangeByRank`). Package-level state on
-the commit path is the B+ tree writer's `queue` (D-QUEUE). -/
+shared location — except the listed ones: a recorded finding (D-SMOVE) and a documented imprecision
+(`ZRangeByRank`). The commit path writes no package-level state. (Two more exceptions were listed until they
+were repaired: the sparse-mode scans sorted `db.BPTreeRootIdxes` in place, D-SORTFID, and the B+ tree
+writer used a package-level `queue`, D-QUEUE.) -/
 theorem C14_facts_ok :
     NutsGen.F.lockPrims = [("Tx.lock", ["DB.mu.Lock", "DB.mu.RLock"]), ("Tx.unlock", ["DB.mu.RUnlock", "DB.mu.Unlock"])] ∧
     (NutsGen.F.lockOps.filter fun p => p.1 == "Tx" && !(p.2.2.1.isEmpty && p.2.2.2.isEmpty)).map (·.2.1) = ["Commit", "Rollback"] ∧
     ((NutsGen.F.effects.filter fun p => p.1 == "Tx" && p.2.1 != "Commit" && p.2.1 != "Rollback" && !(p.2.2.1.isEmpty && p.2.2.2.isEmpty)).map
       fun p => (p.2.1, p.2.2.1)) = NutsProofs.Facts.impureTxMethods ∧
-    (NutsProofs.Facts.eff "Tx" "Commit").2 = ["queue"] :=
+    (NutsProofs.Facts.eff "Tx" "Commit").2 = [] :=
   ⟨NutsProofs.Facts.lock_protocol_ok.1, NutsProofs.Facts.lock_protocol_ok.2.2.2.1, NutsProofs.Facts.read_pure_except.1,
    NutsProofs.Facts.globals_ok.1⟩
 
